@@ -171,15 +171,39 @@ End Grow.
 
 Section DialThm.
 Variable F : fixes.
+Hypothesis HF : dialogue_repaired F.
 Variable cfg : config.
 Variable render : msg -> list bytes * option err.
 
-Lemma do_hello_grows : forall name st, grows (snd st) (snd (fst (do_hello X0 name st))).
+Lemma do_ehlo_grows : forall b name st, grows (snd st) (snd (fst (do_ehlo X0 b name st))).
 Proof.
-  intros name st. unfold do_hello.
+  intros b name st. unfold do_ehlo.
   pose proof (do_cmd_grows (x_ehlo X0) (CEhlo name) st) as G1.
-  destruct (do_cmd (x_ehlo X0) (CEhlo name) st) as [[c w] [cd t|e]]; cbn [fst snd] in *; [exact G1|].
+  destruct (do_cmd (x_ehlo X0) (CEhlo name) st) as [[c w] [cd t|e]]; exact G1.
+Qed.
+
+Lemma do_hello_grows : forall b name st, grows (snd st) (snd (fst (do_hello X0 b name st))).
+Proof.
+  intros b name st. unfold do_hello.
+  pose proof (do_ehlo_grows b name st) as G1.
+  destruct (do_ehlo X0 b name st) as [[c w] [cd t|e]]; cbn [fst snd] in *; [exact G1|].
   eapply grows_trans; [exact G1|]. apply (do_cmd_grows (x_helo X0) (CHelo name) (set_cext c None, w)).
+Qed.
+
+Lemma tls_step_grows : forall st, grows (snd st) (snd (fst (tls_step X0 F cfg st))).
+Proof.
+  intros st. unfold tls_step, do_starttls.
+  assert (G : grows (snd st) (snd (fst (match
+      (match do_cmd (x_starttls X0) CStartTLS st with
+       | ((c, w), ROk _ _) => do_ehlo X0 (fx_ehlo_replace F) (cf_helo cfg) (set_dot c false, w)
+       | r => r end) with (st1, ROk _ _) => (st1, true) | (st1, RErr _) => (st1, false) end)))).
+  { pose proof (do_cmd_grows (x_starttls X0) CStartTLS st) as G1.
+    destruct (do_cmd (x_starttls X0) CStartTLS st) as [[c w] [cd t|e]]; cbn [fst snd] in *.
+    - pose proof (do_ehlo_grows (fx_ehlo_replace F) (cf_helo cfg) (set_dot c false, w)) as G2.
+      destruct (do_ehlo X0 (fx_ehlo_replace F) (cf_helo cfg) (set_dot c false, w)) as [st2 [c2 t2|e2]];
+      cbn [fst snd] in *; eapply grows_trans; eassumption.
+    - exact G1. }
+  destruct (cf_tls cfg); [apply grows_refl| |]; destruct (extension (fst st) ESTARTTLS); try exact G; apply grows_refl.
 Qed.
 
 Lemma close_with_grows : forall st, grows (snd st) (snd (fst (close_with X0 st))).
@@ -197,13 +221,13 @@ Proof.
 Qed.
 
 (* the dial dialogue: the first event is the greeting; unless it was answered 220 nothing else is ever sent *)
-Lemma dial_trace : forall caps script w1 oc,
-  dial X0 cfg (world_init caps script) = (w1, oc) ->
+Lemma dial_trace : forall caps caps_tls script w1 oc,
+  dial X0 F cfg (world_init caps caps_tls script) = (w1, oc) ->
   exists ev0 rest, w_trace w1 = ev0 :: rest /\ ev_cmd ev0 = CGreet /\ ev_legal ev0 = true /\
                    (ev_code ev0 <> 220 -> rest = [] /\ oc = None).
 Proof.
-  intros caps script w1 oc H. unfold dial in H.
-  set (w0 := world_init caps script) in *.
+  intros caps caps_tls script w1 oc H. unfold dial in H.
+  set (w0 := world_init caps caps_tls script) in *.
   rewrite deliver_cmd in H by (cbn; auto). unfold srv_step in H.
   destruct (next_decision (w_script w0)) as [d script'].
   destruct (reply_of d CGreet) as [[code text]|].
@@ -211,25 +235,31 @@ Proof.
     unfold read_reply in H. cbn [c_open cli_init negb w_queue x_greet X0] in H.
     destruct (expect_ok 220 code) eqn:He.
     + apply expect_220 in He. subst code.
-      match type of H with context [do_hello _ _ ?st] => set (st1 := st) in H end.
-      pose proof (do_hello_grows (cf_helo cfg) st1) as [l G].
-      destruct (do_hello X0 (cf_helo cfg) st1) as [[c3 w3] r3]. cbn [fst snd] in G.
-      assert (w1 = w3) by (destruct r3; inversion H; reflexivity). subst w3.
-      unfold st1 in G. cbn [snd w_trace w0 world_init app] in G.
-      eexists; exists l. split; [exact G|]. cbn. split; [reflexivity|split; [reflexivity|]]. intros C. contradiction.
+      match type of H with context [do_hello _ _ _ ?st] => set (st1 := st) in H end.
+      pose proof (do_hello_grows (fx_ehlo_replace F) (cf_helo cfg) st1) as [l G].
+      destruct (do_hello X0 (fx_ehlo_replace F) (cf_helo cfg) st1) as [[c3 w3] r3]. cbn [fst snd] in G.
+      assert (G' : exists l', w_trace w1 = w_trace (snd st1) ++ l').
+      { destruct r3 as [cd t|e].
+        - pose proof (tls_step_grows (c3, w3)) as [l2 G2].
+          destruct (tls_step X0 F cfg (c3, w3)) as [[c4 w4] ok]. cbn [fst snd] in G2.
+          exists (l ++ l2). assert (w1 = w4) by (destruct ok; inversion H; reflexivity). subst w4.
+          rewrite G2, G, app_assoc. reflexivity.
+        - inversion H; subst. exists l. exact G. }
+      destruct G' as [l' G']. unfold st1 in G'. cbn [snd w_trace w0 world_init app] in G'.
+      eexists; exists l'. split; [exact G'|]. cbn. split; [reflexivity|split; [reflexivity|]]. intros C. contradiction.
     + inversion H; subst. cbn. eexists; exists []. split; [reflexivity|]. cbn. split; [reflexivity|split; [reflexivity|]]. auto.
   - cbn [w_queue w0 world_init app] in H. unfold read_reply in H. cbn in H. inversion H; subst.
     cbn. eexists; exists []. split; [reflexivity|]. cbn. split; [reflexivity|split; [reflexivity|]]. auto.
 Qed.
 
-Theorem greeting_first : forall caps script ms,
-  let o := run_case X0 F cfg caps script ms render in
+Theorem greeting_first : forall caps caps_tls script ms,
+  let o := run_case X0 F cfg caps caps_tls script ms render in
   exists ev0 rest, w_trace (o_world o) = ev0 :: rest /\ ev_cmd ev0 = CGreet /\
                    (ev_code ev0 <> 220 -> rest = [] /\ o_ret o = RetDial).
 Proof.
-  intros caps script ms. unfold run_case, dial_and_send.
-  destruct (dial X0 cfg (world_init caps script)) as [w1 oc] eqn:Hd.
-  destruct (dial_trace _ _ _ _ Hd) as (ev0 & rest & Ht & Hc & _ & Hn).
+  intros caps caps_tls script ms. unfold run_case, dial_and_send.
+  destruct (dial X0 F cfg (world_init caps caps_tls script)) as [w1 oc] eqn:Hd.
+  destruct (dial_trace _ _ _ _ _ Hd) as (ev0 & rest & Ht & Hc & _ & Hn).
   destruct oc as [c|].
   - pose proof (send_batch_grows ms (c, w1)) as [l1 G1].
     destruct (send_batch X0 F cfg render ms (c, w1)) as [st2 [r rs]]. cbn [fst snd] in G1.
@@ -240,55 +270,38 @@ Proof.
   - cbn. exists ev0, rest. split; [exact Ht|]. split; [exact Hc|]. intros C. destruct (Hn C) as [E _]. auto.
 Qed.
 
-(* after a successful dial the client's extension map is the set the server advertised in the EHLO it
-   accepted last — or it is dropped (nil) after the HELO fallback, and then no parameter is ever attached *)
-Lemma dial_ext : forall caps script w1 c,
-  dial X0 cfg (world_init caps script) = (w1, Some c) ->
+(* EVERY accepted EHLO replaces the client's extension map by the set this reply advertises (also by the empty
+   set); whatever the map was before.  Sessions with any number of EHLOs are compositions of this step: the
+   dial below has the EHLO of hello() and, after STARTTLS, the EHLO of StartTLS. *)
+Theorem every_ehlo_replaces : forall name c w st' code text,
+  Dialing (c, w) -> do_ehlo X0 true name (c, w) = (st', ROk code text) ->
+  c_ext (fst st') = Some (s_ext (srvof st')) /\
+  s_ext (srvof st') = (if s_tls (w_srv w) then s_caps_tls (w_srv w) else s_caps (w_srv w)).
+Proof.
+  intros name c w st' code text HD H.
+  destruct (do_ehlo_spec name c w st' (ROk code text) HD H) as (_ & (Hso & Hh & Hm) & Ht & Hc & Hct).
+  destruct (c_ext (fst st')) as [l|] eqn:E.
+  - destruct Hm as [E1 E2]. rewrite <- E1. split; [reflexivity|]. rewrite E2, Ht, Hc, Hct. reflexivity.
+  - exfalso. unfold do_ehlo in H. destruct (do_cmd (x_ehlo X0) (CEhlo name) (c, w)) as [[c1 w1] [cd t|e]]; inversion H; subst.
+    cbn in E. destruct c1; cbn in E. discriminate.
+Qed.
+
+(* after a successful dial — with or without STARTTLS, with or without HELO fallback — the client's extension map
+   is the set of the EHLO the server accepted last (inside TLS: the set advertised inside TLS), or nil after the
+   HELO fallback, and then MAIL and RCPT carry no parameter at all *)
+Lemma dial_ext : forall caps caps_tls script w1 c,
+  dial X0 F cfg (world_init caps caps_tls script) = (w1, Some c) ->
   s_open (w_srv w1) = true /\ s_helo (w_srv w1) = true /\
   match c_ext c with
-  | Some l => l = s_ext (w_srv w1) /\ l = s_caps (w_srv w1)
+  | Some l => l = s_ext (w_srv w1) /\ l = (if s_tls (w_srv w1) then s_caps_tls (w_srv w1) else s_caps (w_srv w1))
   | None => s_ext (w_srv w1) = [] /\ mail_params c = [] /\ rcpt_params c = []
   end.
 Proof.
-  intros caps script w1 c H. unfold dial in H.
-  set (w0 := world_init caps script) in *.
-  rewrite deliver_cmd in H by (cbn; auto). unfold srv_step in *.
-  destruct (next_decision (w_script w0)) as [d script'].
-  destruct (reply_of d CGreet) as [[code text]|].
-  - cbn [srv_apply] in H. cbn [w_queue w0 world_init app] in H.
-    unfold read_reply in H. cbn [c_open cli_init negb w_queue x_greet X0] in H.
-    destruct (expect_ok 220 code) eqn:He; [|discriminate].
-    match type of H with context [do_hello _ _ ?st] => set (st1 := st) in H end.
-    assert (HD1 : Dialing st1).
-    { unfold st1, Dialing, srvof, all_legal, all_attributed, attr_match; cbn. repeat split; auto. }
-    unfold do_hello in H. cbn [x_ehlo x_helo X0] in H.
-    destruct (do_cmd 250 (CEhlo (cf_helo cfg)) st1) as [[c2 w2] r2] eqn:He2.
-    destruct (hello_cmd_spec _ _ _ _ _ _ HD1 (ex_intro _ _ (or_introl eq_refl)) He2) as (HD2 & Hc2 & HOk2).
-    cbn [fst] in Hc2. subst c2.
-    destruct r2 as [c2 t2|e2].
-    + inversion H; subst w1 c; clear H.
-      destruct (HOk2 _ _ eq_refl eq_refl) as (Hso & Hh & Hx). unfold srvof in *; cbn [fst snd] in *.
-      split; [exact Hso|]. split; [exact Hh|]. cbn. split; [reflexivity|].
-      rewrite Hx. unfold st1. cbn.
-      (* s_caps is never changed *)
-      clear -He2. unfold st1 in He2.
-      assert (K : s_caps (w_srv w2) = caps).
-      { unfold do_cmd in He2. cbn [c_open cli_init negb c_dot] in He2.
-        rewrite deliver_cmd in He2 by (cbn; auto). unfold srv_step in He2. cbn [w_script w_srv] in He2.
-        destruct (next_decision script') as [d2 s2]. destruct (reply_of d2 (CEhlo (cf_helo cfg))) as [[cd tx]|].
-        - cbn [srv_apply] in He2. unfold read_reply in He2. cbn in He2.
-          destruct (okclass cd); destruct (expect_ok 250 cd); inversion He2; reflexivity.
-        - unfold read_reply in He2. cbn in He2. inversion He2; reflexivity. }
-      symmetry. exact K.
-    + destruct (do_cmd 250 (CHelo (cf_helo cfg)) (set_cext cli_init None, w2)) as [[c3 w3] r3] eqn:He3.
-      assert (HD2' : Dialing (set_cext cli_init None, w2)).
-      { destruct HD2 as (HL & HA & HQ & Hco & Hd & HC & HS). unfold Dialing, srvof in *; cbn [fst snd] in *. repeat split; auto; apply HS; auto. }
-      destruct (hello_cmd_spec _ _ _ _ _ _ HD2' (ex_intro _ _ (or_intror eq_refl)) He3) as (HD3 & Hc3 & HOk3).
-      cbn [fst] in Hc3. subst c3.
-      destruct r3 as [c3 t3|e3]; [|discriminate].
-      inversion H; subst w1 c; clear H.
-      destruct (HOk3 _ _ eq_refl eq_refl) as (Hso & Hh & Hx). unfold srvof in *; cbn [fst snd] in *.
-      split; [exact Hso|]. split; [exact Hh|]. cbn. auto.
-  - cbn [w_queue w0 world_init app] in H. unfold read_reply in H. cbn in H. discriminate.
+  intros caps caps_tls script w1 c H.
+  destruct (dial_full F HF cfg _ _ _ _ _ H) as (_ & _ & _ & HS).
+  destruct (HS c eq_refl) as [_ (Hso & Hh & Hm)]. unfold srvof in *; cbn [fst snd] in *.
+  split; [exact Hso|]. split; [exact Hh|].
+  destruct (c_ext c) as [l|] eqn:E; [exact Hm|].
+  split; [exact Hm|]. unfold mail_params, rcpt_params. rewrite E. auto.
 Qed.
 End DialThm.
